@@ -43,9 +43,14 @@ def main():
     root = tempfile.mkdtemp(prefix='seed-', dir='/dev/shm')
     dst = os.path.join(root, 'repo')
     shutil.copytree('/repo', dst, ignore=shutil.ignore_patterns('.git', 'build', '*.egg-info', '__pycache__', 'tutorial', 'docs', 'img', '*.pyc'))
-    env = dict(os.environ, PYTHONPATH=dst, PYTHONDONTWRITEBYTECODE='1', PYTHONWARNINGS='ignore')
+    env = dict(os.environ, PYTHONPATH=dst, TREE=dst, PYTHONDONTWRITEBYTECODE='1', PYTHONWARNINGS='ignore')
     meta = {'name': a.name, 'property': a.prop, 'needs_to_manifest': a.needs, 'what_it_breaks': a.what, 'ran': []}
     try:
+        d = os.path.join(HERE, 'seeded', a.name)
+        os.makedirs(d, exist_ok=True)
+        shutil.copy(a.patch, os.path.join(d, 'patch.diff'))
+        shutil.copy(a.demo, os.path.join(d, 'demo.py'))
+        a.demo = os.path.join(d, 'demo.py')
         rc0, out0 = sh(['timeout', '300', '/venv/bin/python', os.path.abspath(a.demo)], cwd=root, env=env)
         meta['demo_unchanged'] = {'rc': rc0, 'tail': out0.strip().splitlines()[-2:]}
         meta['ran'].append('PYTHONPATH=<unchanged copy> /venv/bin/python demo.py -> rc %d' % rc0)
@@ -76,10 +81,6 @@ def main():
             print('%s %s %s %s' % (a.name, pid, status, '; '.join(sorted(set(mechs))[:4])))
             if rc == 3:
                 print(out[-2000:])
-        d = os.path.join(HERE, 'seeded', a.name)
-        os.makedirs(d, exist_ok=True)
-        shutil.copy(a.patch, os.path.join(d, 'patch.diff'))
-        shutil.copy(a.demo, os.path.join(d, 'demo.py'))
         old = {}
         mp = os.path.join(d, 'meta.json')
         if os.path.exists(mp):
